@@ -8,7 +8,8 @@ the format description (7zFormat.txt: NUMBER, PackInfo, Folder, CodersInfo, SubS
   A. the real StreamsInfo.read must report exactly the description (stream counts, every substream's size, every
      substream's CRC: its own, or the folder's when the folder holds that one stream and carries a CRC) - C06;
   B. the real StreamsInfo.write of what was read must read back to the same description (what an append session
-     does with the header of the existing archive) - C08.
+     does with the header of the existing archive) - C08, and as a statement about the writer C07: what it emits for
+     a given section content is read back as that content.
 
 Bound (quick): 3000 descriptions drawn with the given seed, at most 4 folders, 3 coders per folder, 4 streams per
 folder, both spellings of the Digests flags (all-defined byte / bit vector), with and without the optional records;
@@ -235,7 +236,7 @@ def main():
         d = draw(rnd)
         runs += 1
         r = run_one(d)
-        if r is not None and (only is None or r[0] == only):
+        if r is not None and (only is None or r[0] == only or (only == "C07" and r[0] == "C08")):
             bad.append({"description": d, "property": r[0], "failure": r[1], "section_hex": encode(d).hex()})
             if len(bad) >= 5:
                 break
